@@ -4,7 +4,7 @@
 //! on the same bytes (not from a stored snapshot).
 use minidump::*;
 use minidump_processor::{process_minidump_with_options, ProcessorOptions};
-use minidump_unwind::{simple_symbol_supplier, MultiSymbolProvider, Symbolizer};
+use minidump_unwind::{http_symbol_supplier, simple_symbol_supplier, MultiSymbolProvider, Symbolizer};
 use serde_json::{json, Value};
 use std::collections::HashMap;
 use std::io::Write;
@@ -61,13 +61,19 @@ fn dump_token(bytes: &[u8], brief: bool) -> Option<Vec<u8>> {
 }
 
 /// The library's reports for these bytes, options and symbol paths (None = processing fails).
-fn library_tokens(bytes: &[u8], features: &str, symbol_paths: &[PathBuf], rfa: bool) -> Option<HashMap<&'static str, Vec<u8>>> {
+const DEAD_URL: &str = "http://127.0.0.1:9/";
+fn library_tokens(bytes: &[u8], features: &str, symbol_paths: &[PathBuf], rfa: bool, http: Option<&(PathBuf, PathBuf)>) -> Option<HashMap<&'static str, Vec<u8>>> {
     let dump = Minidump::read(bytes).ok()?;
     let mut provider = MultiSymbolProvider::new();
-    if !symbol_paths.is_empty() { provider.add(Box::new(Symbolizer::new(simple_symbol_supplier(symbol_paths.to_vec())))); }
+    if let Some((cache, tmp)) = http {
+        provider.add(Box::new(Symbolizer::new(http_symbol_supplier(symbol_paths.to_vec(), vec![DEAD_URL.to_string()], cache.clone(), tmp.clone(), std::time::Duration::from_secs(1000)))));
+    } else if !symbol_paths.is_empty() { provider.add(Box::new(Symbolizer::new(simple_symbol_supplier(symbol_paths.to_vec())))); }
     let mut options = match features { "stable-all" => ProcessorOptions::stable_all(), "unstable-all" => ProcessorOptions::unstable_all(), _ => ProcessorOptions::stable_basic() };
     options.recover_function_args = rfa;
-    let state = block_on(Box::pin(process_minidump_with_options(&dump, &provider, options))).ok()?;
+    let state = if http.is_some() {
+        // the HTTP client needs a tokio reactor
+        tokio::runtime::Builder::new_current_thread().enable_all().build().ok()?.block_on(process_minidump_with_options(&dump, &provider, options)).ok()?
+    } else { block_on(Box::pin(process_minidump_with_options(&dump, &provider, options))).ok()? };
     let mut m = HashMap::new();
     let (mut a, mut b, mut c, mut d) = (vec![], vec![], vec![], vec![]);
     state.print(&mut a).ok()?; state.print_brief(&mut b).ok()?; state.print_json(&mut c, false).ok()?; state.print_json(&mut d, true).ok()?;
@@ -132,6 +138,15 @@ fn main() {
         std::fs::write(dst.join("test_app.sym"), out).unwrap();
     }
     let emptysyms = work.join("nosyms"); std::fs::create_dir_all(&emptysyms).unwrap();
+    // --symbols-url cases: an unreachable server, the symbol file already in the cache; once with explicit --symbols-cache / --symbols-tmp,
+    // once with the documented defaults (<temp dir>/rust-minidump-cache and <temp dir>)
+    let httptmp = work.join("httptmp"); std::fs::create_dir_all(&httptmp).unwrap();
+    let tmproot = work.join("tmproot");
+    {
+        let dst = tmproot.join("rust-minidump-cache/test_app.pdb/5A9832E5287241C1838ED98914E9B7FF1");
+        std::fs::create_dir_all(&dst).unwrap();
+        std::fs::copy(symdir.join("test_app.pdb/5A9832E5287241C1838ED98914E9B7FF1/test_app.sym"), dst.join("test_app.sym")).unwrap();
+    }
 
     let mut cases: Vec<Value> = vec![];
     for_each_case(path, "CASE", |c| cases.push(c));
@@ -157,8 +172,12 @@ fn main() {
                 };
                 let mut cmd = Command::new(bin);
                 let modes: Vec<&str> = c["modes"].as_array().unwrap().iter().map(|m| m.as_str().unwrap()).collect();
-                let cy = dir.join("cyborg.json");
-                let of = dir.join("out.txt");
+                let sink = c["sink"].as_str().unwrap_or("ok");
+                let logf = c["logf"].as_str().unwrap_or("none");
+                let cy = if sink == "cyborg_bad" { dir.join("no-such-dir/cyborg.json") } else { dir.join("cyborg.json") };
+                let of = if sink == "outfile_bad" { dir.join("no-such-dir/out.txt") } else { dir.join("out.txt") };
+                let lf = if logf == "bad" { dir.join("no-such-dir/log.txt") } else { dir.join("log.txt") };
+                if logf != "none" { cmd.arg("--log-file").arg(&lf); }
                 for m in &modes { match *m { "cyborg" => { cmd.arg("--cyborg").arg(&cy); } other => { cmd.arg(format!("--{}", other)); } } }
                 if c["brief"].as_bool().unwrap() { cmd.arg("--brief"); }
                 if c["pretty"].as_bool().unwrap() { cmd.arg("--pretty"); }
@@ -171,17 +190,20 @@ fn main() {
                 match c["symbols"].as_str().unwrap() {
                     "flag" => { cmd.arg("--symbols-path").arg(&symdir); sym_paths.push(symdir.clone()); }
                     "both" => { cmd.arg("--symbols-path").arg(&emptysyms); sym_paths.push(emptysyms.clone()); }
+                    "http_cache" => { cmd.arg("--symbols-url").arg(DEAD_URL).arg("--symbols-cache").arg(&symdir).arg("--symbols-tmp").arg(&httptmp); }
+                    "http_default" => { cmd.arg("--symbols-url").arg(DEAD_URL).env("TMPDIR", &tmproot); }
                     _ => {}
                 }
+                let http: Option<(PathBuf, PathBuf)> = match c["symbols"].as_str().unwrap() { "http_cache" => Some((symdir.clone(), httptmp.clone())), "http_default" => Some((tmproot.join("rust-minidump-cache"), tmproot.clone())), _ => None };
                 cmd.arg(&dump_path);
                 if matches!(c["symbols"].as_str().unwrap(), "positional" | "both") { cmd.arg(&symdir); sym_paths.push(symdir.clone()); }
                 cmd.env("RUST_BACKTRACE", "0").current_dir(&dir);
                 let out = match cmd.output() { Ok(o) => o, Err(e) => { rep.lock().unwrap().mismatch("cli:spawn", json!({"error": e.to_string()})); continue; } };
                 let exp = &c["out"];
                 // expected bytes per sink
-                let key = format!("{}|{}|{:?}|{}", dump_path.display(), features, sym_paths, rfa);
+                let key = format!("{}|{}|{:?}|{}|{:?}", dump_path.display(), features, sym_paths, rfa, http);
                 let toks = { let mut tc = token_cache.lock().unwrap();
-                    if !tc.contains_key(&key) { let v = if dump_bytes.is_empty() { None } else { guarded(|| library_tokens(&dump_bytes, features, &sym_paths, rfa)).ok().flatten() }; tc.insert(key.clone(), v); }
+                    if !tc.contains_key(&key) { let v = if dump_bytes.is_empty() { None } else { guarded(|| library_tokens(&dump_bytes, features, &sym_paths, rfa, http.as_ref())).ok().flatten() }; tc.insert(key.clone(), v); }
                     tc[&key].clone() };
                 let tok = |names: &Value| -> Option<Vec<u8>> {
                     let mut v = vec![];
@@ -204,13 +226,17 @@ fn main() {
                 r.evaluations += 1;
                 r.class(&format!("exit:{}", exp_exit));
                 r.class(&format!("input:{}", inp));
+                r.class(&format!("symbols:{}", c["symbols"].as_str().unwrap()));
+                if sink != "ok" { r.class(&format!("sink:{}", sink)); }
+                if logf != "none" { r.class(&format!("logf:{}:{}", logf, exp["diag"].as_str().unwrap_or("-"))); }
                 r.nontrivial(&c.to_string());
                 let mut fail: Option<&str> = None;
                 if got_exit != exp_exit { fail = Some(if matches!(got_exit, "panic" | "signal" | "other") { "abnormal-exit" } else if exp_exit == "zero" { "unexpected-failure" } else { "unexpected-success-or-status" }); }
                 else if Some(&primary_bytes) != exp_primary.as_ref() { fail = Some(if exp_exit == "zero" { "primary-output-differs-from-library" } else { "output-on-failure" }); }
                 else if Some(&cyborg_bytes) != exp_cyborg.as_ref() { fail = Some("cyborg-output"); }
                 else if c["outfile"].as_bool().unwrap() && !out.stdout.is_empty() { fail = Some("stdout-not-empty-with-output-file"); }
-                else if exp_exit != "zero" && out.stderr.is_empty() { fail = Some("no-diagnostic"); }
+                else if exp_exit != "zero" && exp["diag"] == "log" && std::fs::read(&lf).unwrap_or_default().is_empty() { fail = Some("no-diagnostic-in-log-file"); }
+                else if exp_exit != "zero" && exp["diag"] != "log" && out.stderr.is_empty() { fail = Some("no-diagnostic"); }
                 if let Some(f) = fail {
                     let args_: Vec<String> = cmd.get_args().map(|a| a.to_string_lossy().into_owned()).collect();
                     r.mismatch(&format!("cli:{}", f), json!({"args": args_, "expected_exit": exp_exit, "observed_exit": got_exit, "expected_primary_len": exp_primary.as_ref().map(|v| v.len()),
